@@ -29,9 +29,30 @@ REAL_POOLS = [
 ]
 
 
-def run_group(cmd, timeout, capture="pipe", d=None):
+def alarm_threads(pid, rounds, first, gap):
+    """send SIGALRM to EVERY thread of pdsh (tgkill), `rounds` times: dsh() installs a no-op handler for SIGALRM (the
+    watchdog's signal), so each worker blocked in xpoll() sees -1/EINTR although no timeout has expired -- the
+    "interrupted by spurious signal" branch of _rsh_thread, which must `continue`"""
+    import ctypes, signal, time
+    libc = ctypes.CDLL(None, use_errno=True)
+    SYS_tgkill = 234 if os.uname().machine == "x86_64" else 131       # aarch64: 131
+    sent = 0
+    time.sleep(first)
+    for _ in range(rounds):
+        try:
+            tids = [int(x) for x in os.listdir("/proc/%d/task" % pid)]
+        except OSError:
+            break
+        for tid in tids:
+            if libc.syscall(SYS_tgkill, pid, tid, int(signal.SIGALRM)) == 0:
+                sent += 1
+        time.sleep(gap)
+    return sent
+
+
+def run_group(cmd, timeout, capture="pipe", d=None, alrm=None):
     """run pdsh in its own process group; on timeout kill the whole group (pdsh + its exec children).
-    capture: pdsh's stdout/stderr are pipes, or regular files in `d`"""
+    capture: pdsh's stdout/stderr are pipes, or regular files in `d`; alrm = (rounds, first, gap): see alarm_threads"""
     import signal
     if capture == "file":
         fo, fe = open(os.path.join(d, "pdsh.stdout"), "wb"), open(os.path.join(d, "pdsh.stderr"), "wb")
@@ -40,6 +61,9 @@ def run_group(cmd, timeout, capture="pipe", d=None):
         fe.close()
     else:
         p = subprocess.Popen(cmd, stdout=subprocess.PIPE, stderr=subprocess.PIPE, start_new_session=True)
+    if alrm:
+        import threading
+        threading.Thread(target=alarm_threads, args=(p.pid,) + tuple(alrm), daemon=True).start()
     try:
         so, se = p.communicate(timeout=timeout)
         if capture == "file":
@@ -270,6 +294,24 @@ def pinned_specs(quick):
             hosts[t] = host(o, b"", ["o %d 0" % len(o)] + (["U 150000"] if t == "n1" else []))
         specs.append({"kind": "real-run", "targets": targets, "labels": True, "K": False, "fanout": 1,
                       "write_style": "pinned", "hosts": hosts, "timeout": 0, "capture": capture, "pinned": "exec-fails"})
+    # spurious EINTR in xpoll(): every thread of pdsh gets SIGALRM several times while three hosts are in the middle of
+    # their output (no timeout set, so `_thd_command_timeout` is false): the loop must go on, nothing may be lost
+    hosts = {}
+    for t in ("s1", "s2", "s3"):
+        n = t.encode()
+        o = b"".join(n + b" out %d\n" % k for k in range(8)) + n + b" out tail"
+        e = b"".join(n + b" err %d\n" % k for k in range(4))
+        step = len(o) // 8
+        plan = []
+        for k in range(7):
+            plan.append("o %d 120000" % step)
+            if k % 2:
+                plan.append("e %d 0" % (len(e) // 3))
+        plan += ["o %d 0" % len(o), "e %d 0" % len(e)]
+        hosts[t] = host(o, e, plan)
+    specs.append({"kind": "real-run", "targets": ["s1", "s2", "s3"], "labels": True, "K": False, "fanout": 3,
+                  "write_style": "pinned", "hosts": hosts, "timeout": 0, "capture": "pipe", "pinned": "spurious-eintr",
+                  "alrm": [5, 0.3, 0.1]})
     return specs
 
 
@@ -302,7 +344,9 @@ def exec_spec(ctx, prop, spec, pdsh, writer, d, real):
     shutil.copy(writer, mycmd)
     os.chmod(mycmd, 0o755)
     cmd += [mycmd, d, "%h"]
-    rc, so, se = run_group(cmd, 40 if ctx.quick() else 120, capture=spec.get("capture", "pipe"), d=d)
+    rc, so, se = run_group(cmd, 40 if ctx.quick() else 120, capture=spec.get("capture", "pipe"), d=d, alrm=spec.get("alrm"))
+    if spec.get("alrm"):
+        real["runs_with_spurious_eintr"] = real.get("runs_with_spurious_eintr", 0) + 1
     # targets whose command was never started (execvp failed in the transport's child)
     notrun = [t for t in targets if not os.path.exists(os.path.join(d, t.decode() + ".ran"))]
     real["exec_failed_hosts"] = real.get("exec_failed_hosts", 0) + len(notrun)
@@ -442,6 +486,20 @@ def run_real(ctx, prop, cov, dist):
             real["timeouts_retried"] = real.get("timeouts_retried", 0) + 1
             sig, what, case = exec_spec(ctx, prop, spec, pdsh, writer,
                                         os.path.join(ctx.scratch, "real-retry%d" % (r + len(pinned))), real)
+        if sig and sig != "timeout" and spec.get("timeout"):
+            # a run with a ONE-second command timeout (-u 1) depends on wall-clock time: on a loaded machine a host
+            # that is not meant to hang is given up on, or pdsh has not yet read what a host wrote before the watchdog
+            # fires (the property is about what was READ).  Such a finding is confirmed with a six-second command
+            # timeout before it is reported; a genuine loss repeats, a starved process does not.
+            real["command_timeout_findings_rechecked"] = real.get("command_timeout_findings_rechecked", 0) + 1
+            sig2, what2, case2 = exec_spec(ctx, prop, dict(spec, timeout=6), pdsh, writer,
+                                           os.path.join(ctx.scratch, "real-confirm%d" % (r + len(pinned))), real)
+            if sig2:
+                sig, what, case = sig2, what2, case2
+            else:
+                real["command_timeout_load_flakes"] = real.get("command_timeout_load_flakes", 0) + 1
+                ctx.log("note: real run %d (-u 1) showed `%s` once and passes with -u 6: a starved process, not judged" % (r, sig))
+                sig = None
         if spec.get("pinned") == "exec-fails":
             real["pinned_exec_failures"] = real.get("pinned_exec_failures", 0) + len(case.get("exec_failed", []))
         if sig:
